@@ -1836,4 +1836,65 @@ func c29Scripts(t *testing.T, r *verifkit.Reporter) {
 			s.done()
 		}
 	}
+
+	// S5: a reply for pending handshake A (index k) has been looked up by the receive path; before it takes A's lock
+	// (yield point hs.beforeContinueLock) A runs out of retries and is removed, and k goes to pending handshake B. The
+	// late reply belongs to a handshake that no longer owns k: it must not complete.
+	for _, k := range kvals {
+		name := fmt.Sprintf("S5 late-reply-after-timeout-and-reallocation k=%#x", k)
+		s := c29NewScript(t, r, name, []uint32{k}, 0, 2, 2, false)
+		pa, pb := s.pups[0], s.pups[1]
+		w := s.nodeInit(pa)
+		if w == nil || s.pendingIndexOf(pa) != k {
+			r.Inconclusive(name + ": could not start the first handshake")
+			s.done()
+			continue
+		}
+		resp, res, err := pa.machine(false, 5).ProcessPacket(nil, w.data)
+		if err != nil || res == nil {
+			r.Inconclusive(name + ": puppet could not answer")
+			s.done()
+			continue
+		}
+		var h header.H
+		if err := h.Parse(resp); err != nil {
+			panic(err)
+		}
+		forced := false
+		fired := false
+		hook := func(id int) {
+			if id != verifHsBeforeContinueLock || fired {
+				return
+			}
+			fired = true
+			for i := 0; i < 64 && s.pendingIndexOf(pa) != 0; i++ {
+				s.hsm.handleOutbound(pa.vpn, false) // retransmits, then gives up and removes A
+			}
+			if s.pendingIndexOf(pa) != 0 {
+				return
+			}
+			s.hsm.StartHandshake(pb.vpn, nil)
+			s.hsm.handleOutbound(pb.vpn, false) // B is handed the only index value
+			forced = s.pendingIndexOf(pb) == k
+		}
+		verifHook.Store(&hook)
+		s.hsm.HandleIncoming(ViaSender{UdpAddr: pa.addr}, resp, &h)
+		verifHook.Store(nil)
+		s.drain()
+		if !forced {
+			r.Inconclusive(name + ": the schedule could not be forced")
+			s.done()
+			continue
+		}
+		r.Count("forced_late_replies_after_reallocation", 1)
+		s.check(name + ": after the late reply")
+		if hi := s.f.hostMap.QueryVpnAddr(pa.vpn); hi != nil {
+			r.Violation("C29/timed-out-handshake-completed-on-reallocated-index", fmt.Sprintf("script %s: the handshake that had timed out was completed by a late reply and installed under index %d, which a pending handshake owns", name, hi.localIndexId), map[string]any{"script": name})
+		}
+		if got := s.pendingIndexOf(pb); got != k {
+			r.Violation("C29/pending-handshake-lost-its-index", fmt.Sprintf("script %s: pending handshake B no longer carries index %d after the late reply (has %d)", name, k, got), map[string]any{"script": name})
+		}
+		ev(name)
+		s.done()
+	}
 }
